@@ -111,6 +111,7 @@ def detect(d, checks=None):
 def table():
     rows = []
     sd = os.path.join(VERIF, "seeded")
+    per_round = {}
     for name in sorted(os.listdir(sd)):
         mp = os.path.join(sd, name, "meta.json")
         if not os.path.exists(mp):
@@ -118,12 +119,26 @@ def table():
         m = json.load(open(mp))
         det = m.get("detected_by", {})
         caught = [f"{p}" + (" (proof/correspondence only)" if v.get("no_input") else "") for p, v in sorted(det.items()) if v.get("rc") == 1]
-        rows.append((name, m["property"], m["summary"].replace("\n", " ")[:150], m["needs"].replace("\n", " ")[:150], ", ".join(caught) or "MISSED"))
+        own = det.get(m["property"], {})
+        rnd = m.get("round", 1)
+        before = m.get("own_check_before_strengthening")
+        if before is None and "detected_by_round1" in m:
+            before = m["property"] in (m.get("detected_by_round1") or [])
+        st = per_round.setdefault(rnd, {"n": 0, "before": 0, "after": 0})
+        st["n"] += 1; st["before"] += bool(before); st["after"] += own.get("rc") == 1
+        rows.append((name, str(rnd), m["property"], m["summary"].replace("\n", " ")[:150], m["needs"].replace("\n", " ")[:150],
+                     "yes" if before else "no", (own.get("identities") or "")[:90] if own.get("rc") == 1 else "MISSED", ", ".join(caught) or "MISSED"))
     with open(os.path.join(sd, "RESULTS.md"), "w") as f:
-        f.write("# Seeded changes and the checks that report them (quick tier)\n\n| change | breaks | what | needs | reported by |\n|---|---|---|---|---|\n")
+        f.write("# Seeded changes and the checks that report them (quick tier)\n\n")
+        f.write("| round | changes | own check reported it before strengthening | own check reports it now |\n|---|---|---|---|\n")
+        for rnd in sorted(per_round):
+            st = per_round[rnd]
+            f.write(f"| {rnd} | {st['n']} | {st['before']} | {st['after']} |\n")
+        f.write("\n| change | round | breaks | what | needs | own check before strengthening | own check now: failing-input identities | reported by |\n"
+                "|---|---|---|---|---|---|---|---|\n")
         for r in rows:
             f.write("| " + " | ".join(x.replace("|", "/") for x in r) + " |\n")
-    print(open(os.path.join(sd, "RESULTS.md")).read())
+    print(open(os.path.join(sd, "RESULTS.md")).read()[:3000])
 
 
 if __name__ == "__main__":
